@@ -868,3 +868,114 @@ def _h_sorted(I, args, kwargs, node):
 
 
 C.extern[PP]['sorted'] = FuncVal('hook', 'sorted', _h_sorted)
+
+
+# ==== general_identifier: the qualified name printed for a class / callable (C08, C17) ==========================================
+@C.spec([('c', 'Cls')], 'OptStr', opaque=True)
+def mod_of(c):
+    """c.__module__ (None for methods of built-in types)"""
+    return c.__module__
+
+
+@C.spec([('c', 'Cls')], 'Str', opaque=True)
+def qualname_of(c):
+    return c.__qualname__
+
+
+@C.spec([('c', 'Cls')], 'Bool', opaque=True)
+def has_self(c):
+    return hasattr(c, '__self__')
+
+
+@C.spec([('c', 'Cls')], 'Val', opaque=True)
+def self_of(c):
+    return c.__self__
+
+
+U.attr_hooks[('Cls', '__module__')] = lambda I, base: S(I, 'mod_of', base)
+U.attr_hooks[('Cls', '__qualname__')] = lambda I, base: S(I, 'qualname_of', base)
+U.attr_hooks[('Cls', '__self__')] = lambda I, base: S(I, 'self_of', base)
+U.consts['IMPLICIT_MODULES'] = ('__main__', 'builtins')          # the set display of the source (checked by check_implicit_modules)
+
+
+def _h_callable(I, args, kwargs, node):
+    if is_z3(args[0]) and I.sort_of(args[0]) == 'Cls':
+        return True
+    raise OutsideSubset('callable() of %r' % (args[0],))
+
+
+def _h_hasattr(I, args, kwargs, node):
+    if is_z3(args[0]) and I.sort_of(args[0]) == 'Cls' and args[1] == '__self__':
+        return S(I, 'has_self', args[0])
+    raise OutsideSubset('hasattr shape')
+
+
+def _str_or_none_text(I, a):
+    """str(a) inside format(): None prints as 'None'"""
+    if isinstance(a, str):
+        return z3.StringVal(a)
+    if is_z3(a) and I.sort_of(a) == 'Str':
+        return a
+    if is_z3(a) and I.sort_of(a) == 'OptStr':
+        return z3.If(U.is_('OptStr', 'SomeStr', a), U.acc('OptStr', 'SomeStr', 'v')(a), z3.StringVal('None'))
+    return None
+
+
+def _format_hook2(I, template, args, kwargs, node):
+    import string
+    parts = list(string.Formatter().parse(template))
+    fields = [f for f in parts if f[1] is not None]
+    if fields and all(f[1] == '' and not f[2] and not f[3] for f in fields) and len(fields) == len(args) and not kwargs:
+        texts = [_str_or_none_text(I, a) for a in args]
+        if all(t is not None for t in texts):
+            out, i = [], 0
+            for lit, field, spec, conv in parts:
+                if lit:
+                    out.append(z3.StringVal(lit))
+                if field is not None:
+                    out.append(texts[i])
+                    i += 1
+            return out[0] if len(out) == 1 else z3.Concat(*out)
+    return _format_hook(I, template, args, kwargs, node)
+
+
+U.format_hook = _format_hook2
+_interp.BUILTINS.setdefault('callable', lambda I, a, k, n: _h_callable(I, a, k, n))
+_interp.BUILTINS.setdefault('hasattr', lambda I, a, k, n: _h_hasattr(I, a, k, n))
+C.extern[PP].update({
+    'identifier': FuncVal('hook', 'identifier', lambda I, a, k, n: S(I, 'annot', _Tokens()['NAME_FUNCTION'],
+                                                                      I.coerce(a[0], 'Str'))),
+    'builtin_identifier': FuncVal('hook', 'builtin_identifier', lambda I, a, k, n: S(I, 'annot', _Tokens()['NAME_BUILTIN'],
+                                                                                      I.coerce(a[0], 'Str'))),
+})
+_M = '(mod_of(s) if (mod_of(s) is not None or not has_self(s)) else mod_of(cls_of(self_of(s))))'
+C.contract(
+    PP, 'general_identifier', params={'s': 'Cls'}, returns='Doc',
+    ensures=[('builtins-unqualified', 'implies(%s == "builtins", result == annot(Token.NAME_BUILTIN, qualname_of(s)))' % _M),
+             ('main-unqualified', 'implies(%s == "__main__", result == annot(Token.NAME_FUNCTION, qualname_of(s)))' % _M),
+             ('otherwise-the-own-module-dot-qualname',
+              'implies(%s is not None and %s != "builtins" and %s != "__main__", '
+              'result == annot(Token.NAME_FUNCTION, unwrap(%s) + "." + qualname_of(s)))' % (_M, _M, _M, _M))],
+    serves=['C08', 'C17'],
+    note='for a class or callable: exactly its own __module__ and __qualname__ (the text evaluates to the object where the module is '
+         'imported); a plain string argument is not covered')
+
+
+def check_implicit_modules():
+    from pvf.pyvc.run import module_ast
+    src, tree = module_ast(PP)
+    got = []
+    for n in ast.walk(tree):
+        tg = n.targets if isinstance(n, ast.Assign) else ([n.target] if isinstance(n, (ast.AugAssign, ast.AnnAssign)) else [])
+        for t in tg:
+            if isinstance(t, ast.Name) and t.id == 'IMPLICIT_MODULES':
+                try:
+                    got.append(tuple(sorted(ast.literal_eval(n.value))))
+                except Exception:      # noqa
+                    got.append(ast.unparse(n.value))
+    return got == [('__main__', 'builtins')], got
+
+
+PRECHECKS.append(check_implicit_modules)
+
+U.modules['sys'] = {'modules': z3.Const('sys_modules', z3.SetSort(z3.StringSort()))}       # which modules are loaded: any set of names
